@@ -540,9 +540,9 @@ pub fn failure_shapes(rng: &mut Rng) -> Vec<Shape> {
         p.lines.push(Line::Raw("    lw a0, nowhere".into()));
         exit(p);
     }));
-    // (an undefined label is undefined whatever it is called: names that resemble registers, the word
-    // `zero` in another case, mnemonics, CSR names)
-    let odd = *rng.pick(&["ZERO", "Zero", "zERO", "X5", "A0", "Sp", "RA", "Utvec", "ret_", "Li", "T7", "s12", "x32"]);
+    // (an undefined label is undefined whatever it is called: names that resemble registers, mnemonics,
+    // CSR names; the word zero in any case is an immediate by the repository's own unit test)
+    let odd = *rng.pick(&["X5", "A0", "Sp", "RA", "Utvec", "ret_", "Li", "T7", "s12", "x32"]);
     let odd_use = *rng.pick(&["lw a0, {}", "sw a0, {}, t0", "lb a0, {}", "sh a0, {}, t1"]);
     v.push(mk("load-or-store-names-an-undefined-label-with-an-odd-name", &|p| {
         p.lines.push(Line::Raw(format!("    {}", odd_use.replace("{}", odd))));
